@@ -3,7 +3,7 @@ import ZChain.Model.Zcn
 Line protocol of the bridge-contract model (shared by the drivers `zdrv-C18` and `zdrv-C19`; the Go side is
 `harness/cmd/c18/zcnw`). Core-only.
 
-`init <fee> <minBurn> <minMint> <maxFee> <percentHex> <owner> <minStakePerDelegate> <maxDelegates>
+`init <fee> <minBurn> <minMint> <maxFee> <percentHex> <owner> <minStakePerDelegate> <maxDelegates> <otherValid 0|1>
       | <id:bal:nonce>* | <addr:nonce>* | <k:sk>* | <k:wallet:maxDel:ratioHex:reward:killed:minStake:pools>* | <count> | <nonce>*`
    (`killed` = `0|1` registered authorizer, `u0|u1` a stake pool without authorizer node; pools = `-` | `b.r/b.r/…`)
 `burn    <sender> <value> <fee> <nonce> a<addr> | e<v> | m<v>`
@@ -11,7 +11,8 @@ Line protocol of the bridge-contract model (shared by the drivers `zdrv-C18` and
    sigs = `-` | comma list of `<id>/<sig>`; id = `e` | `k<i>`; sig = `b<v>` | `<c>=` | `<c>*<eth>.<amountU64>.<nonce>.<recv>`
 `addauth <sender> <value> <fee> <nonce> ! | <k>:<wallet|->:<maxDel>:<ratioHex>`
 `delauth <sender> <value> <fee> <nonce> ! | <k>`
-answer: `<status> <error class|-> <extra|-> a=… u=… c=… r=… p=… m=… x=0`.
+`updcfg  <sender> <value> <fee> <nonce> ! | - | <key>=<value>,…`   keys mb mm mf sd (coins), pa (hex), ow (id), md (int), bad
+answer: `<status> <error class|-> <extra|-> g=<config in the state> a=… u=… c=… r=… p=… m=… x=0`.
 -/
 namespace ZChain.ZcnLine
 open ZChain ZChain.Ledger ZChain.Zcn ZChain.Alg
@@ -19,7 +20,7 @@ open ZChain ZChain.Ledger ZChain.Zcn ZChain.Alg
 structure DS where
   feeOn : Bool := true
   keys : List (Nat × Fr) := []       -- key universe: index ↦ secret (= public exponent)
-  st : ZSt := { accts := [], cfg := ⟨0, 0, 0, F64.zero, 0, 0, 0⟩, users := [], auths := [], count := 0, pools := [], minted := [] }
+  st : ZSt := { accts := [], cfg := ⟨0, 0, 0, F64.zero, 0, 0, 0, true⟩, users := [], auths := [], count := 0, pools := [], minted := [] }
   ready : Bool := false
 
 /-! ### printing -/
@@ -45,7 +46,8 @@ def showState (s : ZSt) : String :=
   let ps := (dedupFirst s.pools).map fun p =>
     ((p.1 : Int), s!"{p.1}:{p.2.wallet}:{p.2.maxDel}:{F64.toHex p.2.sp.ratio}:{p.2.sp.reward}:{if p.2.sp.killed then 1 else 0}:{p.2.sp.minStake}:{showPools p.2.sp.pools}")
   let ms := s.minted.eraseDups.map fun n => (n, s!"{n}")
-  s!"a={joinSorted "," as} u={joinSorted "," us} c={s.count} r={joinSorted "," rs} p={joinSorted ";" ps} m={joinSorted "," ms} x=0"
+  let g := s!"{s.cfg.minBurn},{s.cfg.minMint},{s.cfg.maxFee},{F64.toHex s.cfg.percent},{s.cfg.owner},{s.cfg.minStakePerDelegate},{s.cfg.maxDelegates},{if s.cfg.otherValid then 1 else 0}"
+  s!"g={g} a={joinSorted "," as} u={joinSorted "," us} c={s.count} r={joinSorted "," rs} p={joinSorted ";" ps} m={joinSorted "," ms} x=0"
 
 def showStatus : Status → String
   | .rejected => "rejected" | .success => "success" | .failed => "failed"
@@ -98,13 +100,14 @@ def parseReg (w : String) : Option Reg :=
 
 def parseInit (ws : List String) : Option DS :=
   match ws with
-  | fee :: minBurn :: minMint :: maxFee :: pct :: owner :: minSPD :: maxDel :: rest =>
+  | fee :: minBurn :: minMint :: maxFee :: pct :: owner :: minSPD :: maxDel :: ov :: rest =>
     match splitBars rest with
     | [[], accts, users, keys, regs, [count], minted] => do
       if fee ≠ "0" ∧ fee ≠ "1" then none
+      if ov ≠ "0" ∧ ov ≠ "1" then none
       let cfg : Cfg := { minBurn := ← minBurn.toNat?, minMint := ← minMint.toNat?, maxFee := ← maxFee.toNat?,
                          percent := ← F64.ofHex? pct, owner := ← owner.toNat?,
-                         minStakePerDelegate := ← minSPD.toNat?, maxDelegates := ← maxDel.toInt? }
+                         minStakePerDelegate := ← minSPD.toNat?, maxDelegates := ← maxDel.toInt?, otherValid := ov = "1" }
       let keys ← parseKeys keys
       let regs ← regs.mapM parseReg
       let auths ← (regs.filter (·.registered)).mapM fun r => do
@@ -199,6 +202,28 @@ def parseAdd (keys : List (Nat × Fr)) (s : String) : Option (Option AddIn) :=
     pure (some { key := k, pk := pk, wallet := wallet, maxDel := ← md.toInt?, ratio := ← F64.ofHex? ratio })
   | _ => none
 
+def parseUpd (w : String) : Option Upd :=
+  match w.splitOn "=" with
+  | ["mb", v] => v.toNat?.map Upd.minBurn
+  | ["mm", v] => v.toNat?.map Upd.minMint
+  | ["mf", v] => v.toNat?.map Upd.maxFee
+  | ["pa", v] => (F64.ofHex? v).map Upd.percent
+  | ["ow", v] => v.toNat?.map Upd.owner
+  | ["sd", v] => v.toNat?.map Upd.minSPD
+  | ["md", v] => v.toInt?.map Upd.maxDel
+  | ["bad", v] => v.toNat?.map fun _ => Upd.invalid
+  | _ => none
+
+/-- `!` (not JSON) or a comma list of `key=value` with pairwise distinct keys (a Go map). -/
+def parseUpds (s : String) : Option (Option (List Upd)) :=
+  if s = "!" then some none
+  else if s = "-" then some (some [])
+  else
+    let ws := s.splitOn ","
+    let ks := ws.map fun w => (w.splitOn "=").headD ""
+    if ks.eraseDups.length ≠ ks.length then none
+    else (ws.mapM parseUpd).map some
+
 def parseDel (s : String) : Option (Option Nat) :=
   if s = "!" then some none else s.toNat?.map some
 
@@ -212,6 +237,9 @@ def mintErrTag : MintErr → String
   | .fewSigs => "fewSigs" | .receiver => "receiver" | .minMint => "minMint" | .maxFee => "maxFee"
   | .nonceExists => "nonceExists" | .verify => "verify" | .notEnough => "notEnough" | .coin => "coin"
   | .pickRange => "pickRange" | .noPool => "noPool" | .reward => "reward"
+
+def cfgErrTag : CfgErr → String
+  | .notOwner => "notOwner" | .decode => "decode" | .update => "update" | .validate => "validate"
 
 def authErrTag : AuthErr → String
   | .decode => "decode" | .noWallet => "noWallet" | .notOwner => "notOwner" | .exists => "exists"
@@ -271,6 +299,15 @@ def step (d : DS) (ws : List String) : DS × String :=
           let r := delAuthStep d.feeOn d.st c k
           let tag := match delAuth d.st c.sender k with
             | .error e => some (authErrTag e)
+            | .ok _ => none
+          ({ d with st := r.1 }, answer r tag "-")
+      | "updcfg" =>
+        match parseUpds arg with
+        | none => (d, "bad-op")
+        | some u =>
+          let r := updCfgStep d.feeOn d.st c u
+          let tag := match updCfg d.st c.sender u with
+            | .error e => some (cfgErrTag e)
             | .ok _ => none
           ({ d with st := r.1 }, answer r tag "-")
       | _ => (d, "bad-op")
